@@ -21,8 +21,12 @@ use std::collections::{BTreeMap, BTreeSet};
 use syn::spanned::Spanned;
 use syn::{Expr, Stmt};
 
+pub mod pure;
 pub mod target_config;
+pub mod target_ordered_f64;
 pub mod target_search_k;
+pub mod target_tenant_id;
+pub mod target_token_bucket;
 
 // ------------------------------------------------------------------------------------------------
 // errors
